@@ -469,9 +469,43 @@ func b1(w *World, r *Report) {
 		e := "p0[(phi((φ + 1)|-1) + 1)]"
 		r.Check(w.findStore(as, "recv.Stakes", "append(recv.Stakes, p0)") != nil, "B-1", "addStake:appends", "the new stakes are appended to the list", "addStake does not append the stakes to the list", fnSite(w, as))
 		st := w.findStore(as, "recv.TotalPower", "(recv.TotalPower + "+e+".Power)")
+		// the same sums accumulated in locals and added once after the loop
+		var stBlk, ssBlk *ssa.BasicBlock
+		if st != nil {
+			stBlk = st.Block()
+		}
+		accumulated := func(field string) (*ssa.Store, *ssa.BasicBlock) {
+			for _, s0 := range w.storesTo(as, field) {
+				bo, isB := stripConv(s0.Val).(*ssa.BinOp)
+				if !isB || bo.Op != token.ADD {
+					continue
+				}
+				var acc ssa.Value
+				switch {
+				case w.Canon(bo.X) == field:
+					acc = bo.Y
+				case w.Canon(bo.Y) == field:
+					acc = bo.X
+				default:
+					continue
+				}
+				if addend, blk, ok := loopAccum(acc); ok && w.Canon(addend) == e+".Power" {
+					return s0, blk
+				}
+			}
+			return nil, nil
+		}
+		if st == nil {
+			st, stBlk = accumulated("recv.TotalPower")
+		}
 		r.Check(st != nil && len(w.storesTo(as, "recv.TotalPower")) == 1, "B-1", "addStake:TotalPower", "TotalPower grows by each added stake's power", "addStake does not add each stake's power to TotalPower", fnSite(w, as))
 		ss := w.findStore(as, "recv.SelfPower", "(recv.SelfPower + "+e+".Power)")
-		ok := ss != nil && len(w.storesTo(as, "recv.SelfPower")) == 1 && w.condCanonHolds(ss.Block(), e+".IsSelfStake()", 1) && (st == nil || !w.condCanonHolds(st.Block(), e+".IsSelfStake()", 1) && !w.condCanonHolds(st.Block(), e+".IsSelfStake()", -1))
+		if ss != nil {
+			ssBlk = ss.Block()
+		} else {
+			ss, ssBlk = accumulated("recv.SelfPower")
+		}
+		ok := ss != nil && len(w.storesTo(as, "recv.SelfPower")) == 1 && w.condCanonHolds(ssBlk, e+".IsSelfStake()", 1) && (st == nil || !w.condCanonHolds(stBlk, e+".IsSelfStake()", 1) && !w.condCanonHolds(stBlk, e+".IsSelfStake()", -1))
 		r.Check(ok, "B-1", "addStake:SelfPower", "SelfPower grows by the power of self stakes only, TotalPower unconditionally", "addStake does not add exactly the self stakes' power to SelfPower", fnSite(w, as))
 	}
 	for _, m := range []struct{ name, removed string }{{"DelStake", "recv.delStakeByHash(p0)"}, {"DelStakeByIdx", "recv.delStakeByIdx(p0)"}} {
@@ -616,8 +650,28 @@ func b1(w *World, r *Report) {
 	if ds != nil {
 		// the totals are recomputed by functions that sum the powers of the stake list
 		// (of the delegatee's own stakes / of all stakes), however they are packaged
-		var s1, s2 *ssa.Store
+		var s1, s2 ssa.Instruction
+		// the stores of doSlashAll itself, and those of a helper it calls on the same
+		// delegatee (`recv.recount()`): the helper's call stands for them in doSlashAll
+		type recStore struct {
+			fs fieldStore
+			at ssa.Instruction
+		}
+		var recs []recStore
 		for _, fs := range w.fieldStores(ds) {
+			recs = append(recs, recStore{fs, fs.In})
+		}
+		for _, hc := range CallsIn(ds) {
+			g := hc.Common().StaticCallee()
+			if g == nil || !w.InModule(g) || g.Blocks == nil || g.Signature.Recv() == nil || len(hc.Common().Args) == 0 || w.Canon(hc.Common().Args[0]) != "recv" {
+				continue
+			}
+			for _, fs := range w.fieldStores(g) {
+				recs = append(recs, recStore{fs, hc})
+			}
+		}
+		for _, rs := range recs {
+			fs := rs.fs
 			c := w.Canon(fs.Addr)
 			if c != "recv.SelfPower" && c != "recv.TotalPower" {
 				continue
@@ -647,12 +701,11 @@ func b1(w *World, r *Report) {
 			if kind == "owned" && owner == "nil" {
 				kind = "all"
 			}
-			st := fs.In.(*ssa.Store)
 			if c == "recv.SelfPower" && kind == "owned" && owner == "recv.Addr" {
-				s1 = st
+				s1 = rs.at
 			}
 			if c == "recv.TotalPower" && kind == "all" {
-				s2 = st
+				s2 = rs.at
 			}
 		}
 		ok := s1 != nil && s2 != nil
@@ -1987,8 +2040,12 @@ func j1(w *World, r *Report) {
 		var pc, sc ssa.CallInstruction
 		for _, c := range CallsIn(gp) {
 			s := w.canonCall(c.Common(), 0)
-			if strings.HasSuffix(s, ".DoPunish(p0.Validator.Address, recv.GovParams.SlashRatio())") && strings.HasPrefix(s, "recv.proposalLedger.GetFinality(") {
-				pc = c
+			// a forwarding getter of the controller (`recv.SlashRatio()`) is the embedded one
+			sI := w.canonCallArgsI(c.Common())
+			for _, s := range []string{s, sI} {
+				if strings.HasSuffix(s, ".DoPunish(p0.Validator.Address, recv.GovParams.SlashRatio())") && strings.HasPrefix(s, "recv.proposalLedger.GetFinality(") {
+					pc = c
+				}
 			}
 			if strings.HasPrefix(s, "recv.proposalLedger.SetFinality(recv.proposalLedger.GetFinality(") {
 				sc = c
@@ -2058,6 +2115,8 @@ func j2(w *World, r *Report) {
 			v + ".Power=(" + v + ".Power - " + slash + ")":                                                      "SP",
 			"recv.GovProposalHeader.TotalVotingPower=(recv.GovProposalHeader.TotalVotingPower - " + slash + ")": "ST",
 			"recv.GovProposalHeader.MajorityPower=((recv.GovProposalHeader.TotalVotingPower * 2) / 3)":          "SM",
+			// the same from the value that is being stored as the new total (a setter helper)
+			"recv.GovProposalHeader.MajorityPower=(((recv.GovProposalHeader.TotalVotingPower - " + slash + ") * 2) / 3)": "SM",
 		}
 		// the voter is the record looked up under the offender's address, however the
 		// lookup is packaged (a helper of the header, the key built by a helper)
@@ -2848,4 +2907,47 @@ func (w *World) distinctCounterObjects(r *Report, rule, pkgRel, typ string) int 
 		}
 	}
 	return n
+}
+
+// loopAccum: v is a loop accumulator that starts at 0 and grows by one addend per
+// iteration — `acc = phi(0, acc + x)`, or with the addition under a condition
+// `acc = phi(0, phi(acc + x, acc))`. Returns the addend and the block of the addition.
+func loopAccum(v ssa.Value) (ssa.Value, *ssa.BasicBlock, bool) {
+	ph, ok := stripConv(v).(*ssa.Phi)
+	if !ok || len(ph.Edges) != 2 {
+		return nil, nil, false
+	}
+	var next ssa.Value
+	for i, e := range ph.Edges {
+		if c, isC := e.(*ssa.Const); isC && c.Value != nil && c.Int64() == 0 {
+			next = ph.Edges[1-i]
+		}
+	}
+	if next == nil {
+		return nil, nil, false
+	}
+	addOf := func(x ssa.Value) (ssa.Value, *ssa.BasicBlock, bool) {
+		bo, isB := x.(*ssa.BinOp)
+		if !isB || bo.Op != token.ADD {
+			return nil, nil, false
+		}
+		switch {
+		case bo.X == ssa.Value(ph):
+			return bo.Y, bo.Block(), true
+		case bo.Y == ssa.Value(ph):
+			return bo.X, bo.Block(), true
+		}
+		return nil, nil, false
+	}
+	if a, b, ok := addOf(next); ok {
+		return a, b, true
+	}
+	if mp, isP := next.(*ssa.Phi); isP && len(mp.Edges) == 2 {
+		for i, e := range mp.Edges {
+			if e == ssa.Value(ph) {
+				return addOf(mp.Edges[1-i])
+			}
+		}
+	}
+	return nil, nil, false
 }
